@@ -412,6 +412,8 @@ def rule_x(repo, run):
     # a result by value / by reference / by pointer is fetched by the statements written for that form (C02.R14, C02.R15)
     from checks import c02 as c02_
     import_rules(run, R, c02_, repo, {"C02.R14", "C02.R15"}, only=lambda c: not c.startswith("C06"))
+    # an argument by reference is a pointer in the C wrapper: how the wrapper reaches the C++ object (C02.R12)
+    import_rules(run, R, c02_, repo, {"C02.R12"}, only=lambda c: c.startswith("wrapc.compute_c_deref"))
     import_rules(run, R, c10, repo, {"C10.R2", "C10.R5"})
     import_rules(run, R, c08, repo, {"C08.R3", "C08.R4"}, only=lambda c: not c.startswith("wrapp."))
     # enumerators are passed as argument values: the Fortran parameters must carry the C++ values (C11.R1, C11.R2)
